@@ -72,6 +72,18 @@ func fq(pkg, name string) string {
 // messages, enums, extension ranges, extends, custom options, and (when
 // defects is true) at most two injected defects.
 func genCompileWL(t *rapid.T, maxFiles int, defects bool) CompileWL {
+	var kinds []int
+	if defects {
+		kinds = []int{0, 1, 2, 3, 4, 5, 6}
+	}
+	return genCompileWLKinds(t, maxFiles, kinds)
+}
+
+// genCompileWLKinds is genCompileWL restricted to the given defect kinds
+// (0 syntax, 1 unresolvable type, 2 duplicate symbol, 3 duplicate extension
+// number, 4 missing import, 5 import cycle, 6 message vs package name).
+func genCompileWLKinds(t *rapid.T, maxFiles int, kinds []int) CompileWL {
+	defects := len(kinds) > 0
 	n := rapid.IntRange(2, maxFiles).Draw(t, "nfiles")
 	withOpts := rapid.IntRange(0, 3).Draw(t, "opts") == 0
 	specs := make([]*fileSpec, n)
@@ -95,6 +107,45 @@ func genCompileWL(t *rapid.T, maxFiles int, defects bool) CompileWL {
 			}
 		}
 		specs[i] = s
+	}
+	// Defects are decided before the bodies are rendered, because some of them
+	// change a file's package (references are rendered fully qualified).
+	type defect struct{ kind, k, o, hi int }
+	var plan []defect
+	if defects {
+		nd := rapid.IntRange(0, 2).Draw(t, "ndefects")
+		for d := 0; d < nd; d++ {
+			df := defect{k: rapid.IntRange(0, n-1).Draw(t, "defectFile")}
+			df.kind = kinds[rapid.IntRange(0, len(kinds)-1).Draw(t, "defectKind")]
+			df.o = rapid.IntRange(0, n-1).Draw(t, "dupOther")
+			if df.o == df.k {
+				df.o = (df.k + 1) % n
+			}
+			df.hi = rapid.IntRange(df.k, n-1).Draw(t, "cycleTo")
+			switch df.kind {
+			case 2:
+				specs[df.o].pkg = specs[df.k].pkg
+			case 3:
+				if df.k == 0 || df.o == 0 || specs[0].syntax == "proto3" || specs[df.k].syntax == "proto3" || specs[df.o].syntax == "proto3" {
+					continue // not expressible here; no defect
+				}
+				for _, x := range []int{df.k, df.o} {
+					has := false
+					for _, j := range specs[x].imports {
+						if j == 0 {
+							has = true
+						}
+					}
+					if !has {
+						specs[x].imports = append([]int{0}, specs[x].imports...)
+					}
+				}
+			case 6:
+				specs[df.k].pkg = "p"
+				specs[(df.k+1)%n].pkg = "p.q"
+			}
+			plan = append(plan, df)
+		}
 	}
 	// visibility: direct imports plus whatever they re-export publicly
 	var exported func(i int, seen map[int]bool)
@@ -155,87 +206,55 @@ func genCompileWL(t *rapid.T, maxFiles int, defects bool) CompileWL {
 	}
 	wl := CompileWL{}
 	extra := map[string]PFile{}
-	if defects {
-		nd := rapid.IntRange(0, 2).Draw(t, "ndefects")
-		for d := 0; d < nd; d++ {
-			k := rapid.IntRange(0, n-1).Draw(t, "defectFile")
-			s := specs[k]
-			switch rapid.IntRange(0, 6).Draw(t, "defectKind") {
-			case 0:
-				s.body = append(s.body, "message {")
-				wl.Defects = append(wl.Defects, "syntax error in "+s.name)
-			case 1:
+	for _, df := range plan {
+		k, o := df.k, df.o
+		s := specs[k]
+		switch df.kind {
+		case 0:
+			s.body = append(s.body, "message {")
+			wl.Defects = append(wl.Defects, "syntax error in "+s.name)
+		case 1:
+			lbl := "optional "
+			if s.syntax != "proto2" {
+				lbl = ""
+			}
+			s.body = append(s.body, fmt.Sprintf("message U%d {\n  %s.zz.Nope u = 1;\n}", k, lbl))
+			wl.Defects = append(wl.Defects, "unresolvable type in "+s.name)
+		case 2:
+			s.body = append(s.body, "message Dup {\n}")
+			specs[o].body = append(specs[o].body, "message Dup {\n}")
+			wl.Defects = append(wl.Defects, fmt.Sprintf("symbol Dup defined in %s and %s", s.name, specs[o].name))
+		case 3:
+			for _, x := range []int{k, o} {
+				sp := specs[x]
 				lbl := "optional "
-				if s.syntax != "proto2" {
+				if sp.syntax != "proto2" {
 					lbl = ""
 				}
-				s.body = append(s.body, fmt.Sprintf("message U%d {\n  %s.zz.Nope u = 1;\n}", k, lbl))
-				wl.Defects = append(wl.Defects, "unresolvable type in "+s.name)
-			case 2:
-				o := rapid.IntRange(0, n-1).Draw(t, "dupOther")
-				if o == k {
-					o = (k + 1) % n
-				}
-				specs[o].pkg = s.pkg
-				s.body = append(s.body, "message Dup {\n}")
-				specs[o].body = append(specs[o].body, "message Dup {\n}")
-				wl.Defects = append(wl.Defects, fmt.Sprintf("symbol Dup defined in %s and %s", s.name, specs[o].name))
-			case 3:
-				// two files extend M0 with the same tag
-				o := rapid.IntRange(0, n-1).Draw(t, "dupOther")
-				if o == k {
-					o = (k + 1) % n
-				}
-				if k == 0 || o == 0 || specs[0].syntax == "proto3" || s.syntax == "proto3" || specs[o].syntax == "proto3" {
-					s.body = append(s.body, "message {")
-					wl.Defects = append(wl.Defects, "syntax error in "+s.name)
-					break
-				}
-				for _, x := range []int{k, o} {
-					sp := specs[x]
-					has := false
-					for _, j := range sp.imports {
-						if j == 0 {
-							has = true
-						}
-					}
-					if !has {
-						sp.imports = append([]int{0}, sp.imports...)
-					}
-					lbl := "optional "
-					if sp.syntax != "proto2" {
-						lbl = ""
-					}
-					sp.body = append(sp.body, fmt.Sprintf("extend %s {\n  %sint32 dupx%d = 150;\n}", fq(specs[0].pkg, "M0"), lbl, x))
-				}
-				wl.Defects = append(wl.Defects, fmt.Sprintf("extension tag 150 of M0 used in %s and %s", s.name, specs[o].name))
-			case 4:
-				s.rawImps = append(s.rawImps, fmt.Sprintf("missing%d.proto", k))
-				wl.Defects = append(wl.Defects, "missing import in "+s.name)
-			case 5:
-				// cycle: a lower file imports a higher one that (maybe) imports it back
-				hi := rapid.IntRange(k, n-1).Draw(t, "cycleTo")
-				s.rawImps = append(s.rawImps, specs[hi].name)
-				if hi != k {
-					has := false
-					for _, j := range specs[hi].imports {
-						if j == k {
-							has = true
-						}
-					}
-					if !has {
-						specs[hi].imports = append(specs[hi].imports, k)
-					}
-				}
-				wl.Defects = append(wl.Defects, fmt.Sprintf("import cycle %s <-> %s", s.name, specs[hi].name))
-			case 6:
-				// same symbol as a package name: message q in package p vs package p.q
-				s.pkg = "p"
-				s.body = append(s.body, "message q {\n}")
-				o := (k + 1) % n
-				specs[o].pkg = "p.q"
-				wl.Defects = append(wl.Defects, fmt.Sprintf("message p.q in %s vs package p.q in %s", s.name, specs[o].name))
+				sp.body = append(sp.body, fmt.Sprintf("extend %s {\n  %sint32 dupx%d = 150;\n}", fq(specs[0].pkg, "M0"), lbl, x))
 			}
+			wl.Defects = append(wl.Defects, fmt.Sprintf("extension tag 150 of M0 used in %s and %s", s.name, specs[o].name))
+		case 4:
+			s.rawImps = append(s.rawImps, fmt.Sprintf("missing%d.proto", k))
+			wl.Defects = append(wl.Defects, "missing import in "+s.name)
+		case 5:
+			hi := df.hi
+			s.rawImps = append(s.rawImps, specs[hi].name)
+			if hi != k {
+				has := false
+				for _, j := range specs[hi].imports {
+					if j == k {
+						has = true
+					}
+				}
+				if !has {
+					specs[hi].imports = append(specs[hi].imports, k)
+				}
+			}
+			wl.Defects = append(wl.Defects, fmt.Sprintf("import cycle %s <-> %s", s.name, specs[hi].name))
+		case 6:
+			s.body = append(s.body, "message q {\n}")
+			wl.Defects = append(wl.Defects, fmt.Sprintf("message p.q in %s vs package p.q in %s", s.name, specs[(k+1)%n].name))
 		}
 	}
 	if withOpts {
